@@ -443,6 +443,21 @@ impl OcflStore for FsOcflStore {
             )));
         }
 
+        // The object may have been purged and created again since the new version was staged. The
+        // new version must be based on the versions that the object has now.
+        for (num, existing) in &existing_inventory.versions {
+            if !inventory
+                .versions
+                .get(num)
+                .map_or(false, |staged| staged.same_as(existing))
+            {
+                return Err(RocflError::IllegalState(format!(
+                    "Cannot create version {} in object {} because it is not based on the object's current version {}",
+                    version_str, inventory.id, num
+                )));
+            }
+        }
+
         let object_root = self.storage_root.join(&existing_inventory.object_root);
         let destination = object_root.join(&version_str);
 
